@@ -51,7 +51,22 @@ def recase(s, rng):
     return "".join(c.upper() if rng.chance(1, 2) else c.lower() for c in s)
 
 
-def files_of(ps, rng, missing=False):
+# what may stand above the class header / how the file is encoded (wsutil::render): b blank lines, c a comment line,
+# k a constant, a an annotation; l Latin-1 bytes (not valid UTF-8) in a comment, m a byte order mark, r CRLF line ends.
+# None of them changes what the file DECLARES: the model (and the declared relation) ignore them.
+DRESS = "bckalmr"
+
+
+def dress(rng):
+    """one file in three is dressed: one flag, or a random subset"""
+    if not rng.chance(1, 3):
+        return ""
+    if rng.chance(1, 2):
+        return DRESS[rng.below(len(DRESS))]
+    return "".join(c for c in DRESS if rng.chance(1, 3))
+
+
+def files_of(ps, rng, missing=False, dressed=True):
     out = []
     for i, p in enumerate(ps):
         mem = [recase(m, rng) for m in MEMBERS if rng.chance(3, 5)]
@@ -60,8 +75,23 @@ def files_of(ps, rng, missing=False):
         else:
             par = recase(NAMES[p], rng)
         # one file in three also carries USE sites of every method name of the workspace (flag h; the model ignores it)
-        out.append("%s:%s:%s%s" % (NAMES[i], par, "+".join(mem) or "-", ":-:h" if rng.chance(1, 3) else ""))
+        flags = ("h" if rng.chance(1, 3) else "") + (dress(rng) if dressed else "")
+        out.append("%s:%s:%s%s" % (NAMES[i], par, "+".join(mem) or "-", (":-:" + flags) if flags else ""))
     return ",".join(out)
+
+
+def gen_dressed(ctx, cases):
+    """every dressing flag alone, every pair and all of them, on every position of a chain with a side branch
+    (root, inner class, leaf) and on all files at once; deterministic (no rng): chunk sizes 1 and 2, default hand-overs"""
+    sets = list(DRESS) + [x + y for x, y in itertools.combinations(DRESS, 2)] + [DRESS]
+    shape = [("aKa", "-", "m1+f1"), ("aKb", "aKa", "m1+m2"), ("aKc", "AKB", "m2+f1"), ("aKd", "aka", "m1")]
+    for fl in sets:
+        for where in ([0], [1], [2], [3], [0, 1, 2, 3]):
+            fs = ",".join("%s:%s:%s%s" % (n, p, m, (":-:" + fl + ("h" if i == 2 else "")) if i in where else (":-:h" if i == 2 else ""))
+                          for i, (n, p, m) in enumerate(shape))
+            for chunk in (1, 2):
+                cases.append("tree %s %d 2 c -" % (fs, chunk))
+                ctx.count("dressed headers / encodings (deterministic)")
 
 
 def random_forest(n, rng):
@@ -89,6 +119,8 @@ def gen_cases(ctx):
         cases += [l.strip() for l in open(corpus) if l.strip() and not l.startswith("#")]
     ncorpus = len(cases)
     quick = ctx.tier == "quick"
+    gen_dressed(ctx, cases)
+    ndressed = len(cases) - ncorpus
     seqs = list(choice_seqs(6 if quick else 8))
     for n in range(1, 5):
         for ps in forests(n):
@@ -98,7 +130,7 @@ def gen_cases(ctx):
                     order = ".".join(map(str, ctx.rng.shuffle(list(range(n)))))
                     cases.append("tree %s %d 2 c%s %s" % (fs, chunk, ".".join(map(str, ch)), order))
                     ctx.count("forced n=%d" % n)
-    nexh = len(cases) - ncorpus
+    nexh = len(cases) - ncorpus - ndressed
     # larger forests, three workers, longer choice lists (candidates can be 3 wide)
     for _ in range(300 if quick else 20000):
         n = 5 + ctx.rng.below(2)
@@ -147,9 +179,13 @@ def classify(impl, spec):
     kinds = set()
     a, s = impl.split(), spec.split()
     if len(a) != len(s):
+        # a failed prepare leaves out the answers of that class / member: compare the others by their keys
         kinds.add("prepare-failed" if "prep!" in impl else "crash-or-shape")
-        return kinds
-    for x, y in zip(a, s):
+        have = dict(w.split("=", 1) for w in a if "=" in w)
+        pairs = [(k + "=" + have[k], y) for y in s for k in [y.split("=", 1)[0]] if k in have]
+    else:
+        pairs = list(zip(a, s))
+    for x, y in pairs:
         if x == y:
             continue
         if x.startswith("prep!"):
@@ -310,6 +346,8 @@ def replay(ctx):
     for attempt in range(3):     # free-running cases race: show three runs
         h = ctx.run_harness("tree", [line])[0]
         m, a = split_out(h)
+        us = [w for w in a.split(" ") if w.startswith("use")]
+        a = " ".join(w for w in a.split(" ") if not w.startswith("use"))
         spec = ctx.run_driver([driver_line("treespec", line, m.get("order"))])[0]
         model = ctx.run_driver([driver_line("tree", line, m.get("order"))])[0]
         print("case            :", line)
@@ -318,6 +356,11 @@ def replay(ctx):
         print("declared relation:", spec)
         if a != spec:
             rc = 1
+            for k in sorted(classify(a, spec)):
+                print("  C13:%s — %s" % (k, WHAT[k]))
+        for sig, what in use_site_failures(line, a, us):
+            rc = 1
+            print("  C13:%s — %s" % (sig, what))
         if " free " not in line:
             break
     if rc:
